@@ -129,6 +129,36 @@ func (e *Engine) intrinsic(fr *Frame, st *State, name string, fn *ssa.Function, 
 			return T{fmt.Sprintf("(>= (newid (sbase %s)) %s)", x.S, e.loopTimeCtx), sBool}
 		}
 		e.unsupported("GvcLoopFresh on sort %s", x.Sort)
+	case "GvcElemsFrame":
+		// every backing store of []T that existed at entry, other than the one of s, is unchanged
+		if fr.oldState == nil || len(fn.TypeArgs()) != 1 {
+			e.unsupported("GvcElemsFrame needs a pre-state")
+		}
+		et := fn.TypeArgs()[0]
+		if _, isS := isStruct(et); isS {
+			e.unsupported("GvcElemsFrame on struct elements")
+		}
+		hn, hs := e.elemHeap(et)
+		cur := e.heap(st, hn, hs)
+		old := e.heap(fr.oldState, hn, hs)
+		x := args[0].(T)
+		return T{fmt.Sprintf("(forall ((x Ref)) (! (=> (and (= (newid x) 0) (not (= x (sbase %s)))) (= (select %s x) (select %s x))) :pattern ((select %s x))))", x.S, cur.S, old.S, cur.S), sBool}
+	case "GvcSameElems":
+		// the backing store of s holds what it held in the pre-state
+		if fr.oldState == nil || len(fn.TypeArgs()) != 1 {
+			e.unsupported("GvcSameElems needs a pre-state")
+		}
+		et := fn.TypeArgs()[0]
+		if _, isS := isStruct(et); isS {
+			e.unsupported("GvcSameElems on struct elements")
+		}
+		hn, hs := e.elemHeap(et)
+		cur := e.heap(st, hn, hs)
+		old := e.heap(fr.oldState, hn, hs)
+		x := args[0].(T)
+		return T{fmt.Sprintf("(= (select %s (sbase %s)) (select %s (sbase %s)))", cur.S, x.S, old.S, x.S), sBool}
+	case "GvcBase":
+		return T{app("sbase", args[0].(T)), sRef}
 	case "GvcFresh":
 		x := args[0].(T)
 		switch x.Sort {
@@ -258,6 +288,10 @@ func (e *Engine) appendModel(fr *Frame, st *State, s T, tv Val, sT, tT types.Typ
 		e.recStoreIf(st, hn, sb, inplace)
 		e.recStore(st, hn, nb)
 		e.setHeap(st, hn, tIte(inplace, inpl, grown))
+		// forward trigger: a known element of s yields the corresponding element of the result
+		nh := e.heap(st, hn, hs)
+		e.assume(st, T{fmt.Sprintf("(forall ((k Int)) (! (=> (and (<= %s k) (< k (+ %s %s))) (= (select (select %s (sbase %s)) (+ (soff %s) (- k %s))) (select (select %s %s) k))) :pattern ((select (select %s %s) k))))",
+			so.S, so.S, n1.S, nh.S, res.S, res.S, so.S, h.S, sb.S, h.S, sb.S), sBool})
 		return res
 	}
 	// new backing array contents
